@@ -33,6 +33,7 @@
 #include "async/async_runtime.h"
 #include "async/async_worker.h"
 #include "port/timer.h"
+#include "async/console_worker.h"
 
 #ifdef NEOLITH_VERIF
 extern void (*verif_async_yield) (int point, void *worker);
@@ -41,6 +42,7 @@ extern void (*verif_async_yield) (int point, void *worker);
 #define LIVE_MS 60000
 #define TICK_MS 4000		/* liveness bound for a due timer tick (waited for at most once per case) */
 #define MT_LIVE_MS 30000	/* liveness bound of a multi-thread run (they take well under a second) */		/* liveness bound of every wait-for-condition (never a verdict by itself) */
+#define CLEAR_LIVE_MS 15000	/* liveness bound for "the clear released the blocked writer" */
 #define POLL_MS 10		/* poll interval of the timed join (async_worker_pthread.c) */
 
 /* Timing rules of this harness (the check runs on busy machines):
@@ -156,11 +158,47 @@ static void rnd_yield (uint64_t * s)
 
 static async_runtime_t *rt;
 
+/* back end selection: a case whose first line is `#poll` runs lib/async/async_runtime_poll.c (compiled on Linux by
+ * c19poll.c, functions renamed pollrt_*) instead of the epoll back end; every command and every verdict is the same */
+extern async_runtime_t *pollrt_init (void);
+extern int pollrt_wakeup (async_runtime_t *);
+extern int pollrt_wait (async_runtime_t *, io_event_t *, int, struct timeval *);
+extern int pollrt_post_completion (async_runtime_t *, uintptr_t, uintptr_t);
+extern int pollrt_get_event_loop_handle (async_runtime_t *);
+extern int pollrt_write_fd (async_runtime_t *);
+extern int pollrt_compiled (void);
+static int use_poll;
+
+static int RT_wait (async_runtime_t * r, io_event_t * ev, int max, struct timeval *tv)
+{
+  return use_poll ? pollrt_wait (r, ev, max, tv) : async_runtime_wait (r, ev, max, tv);
+}
+
+static int RT_post (async_runtime_t * r, uintptr_t k, uintptr_t d)
+{
+  return use_poll ? pollrt_post_completion (r, k, d) : async_runtime_post_completion (r, k, d);
+}
+
+static int RT_wakeup (async_runtime_t * r)
+{
+  return use_poll ? pollrt_wakeup (r) : async_runtime_wakeup (r);
+}
+
 static async_runtime_t *the_rt (void)
 {
   if (!rt)
-    rt = async_runtime_init ();
+    rt = use_poll ? pollrt_init () : async_runtime_init ();
   return rt;
+}
+
+static int gate_fd = -1;	/* the doorbell as the waiting thread reads it */
+static int gate_wfd = -1;	/* the doorbell as the producers write it (the same eventfd / the other end of the pipe) */
+
+static void set_gate_fds (void)
+{
+  the_rt ();
+  gate_fd = use_poll ? pollrt_get_event_loop_handle (rt) : async_runtime_get_event_loop_handle (rt);
+  gate_wfd = use_poll ? pollrt_write_fd (rt) : gate_fd;
 }
 
 static void emit_wait (int max, int n, io_event_t * ev)
@@ -191,8 +229,6 @@ static struct
 } cw;
 static __thread int gated_thread;	/* this thread's eventfd reads are gated */
 static __thread uint64_t *read_jitter;	/* mt runs: random delay in front of the doorbell read of this thread */
-static int gate_fd = -1;
-
 static void park (int g)
 {
   cw.gate = g;
@@ -200,17 +236,28 @@ static void park (int g)
   sem_wait (&cw.go);
 }
 
+static uint64_t console_jitter;	/* != 0 while `mt console` runs */
 static __thread uint64_t *write_jitter;	/* mt runs: random delay BEHIND the doorbell write of this (producer) thread */
 
 ssize_t write (int fd, const void *buf, size_t n)
 {
   ssize_t r = syscall (SYS_write, fd, buf, n);
-  if (fd == gate_fd && gate_fd >= 0 && write_jitter)
+  if (fd == gate_wfd && gate_wfd >= 0 && write_jitter)
     {
       int e = errno;
       rnd_yield (write_jitter);
       if (*write_jitter % 3 == 0)
         usleep (*write_jitter % 400);
+      errno = e;
+    }
+  else if (fd == gate_wfd && gate_wfd >= 0 && __atomic_load_n (&console_jitter, __ATOMIC_RELAXED))
+    {
+      /* mt console: the worker thread (created by the library) pauses right after it rang the doorbell, so the backend
+       * sees the completion before the worker's next statement runs */
+      int e = errno;
+      uint64_t r = __atomic_add_fetch (&console_jitter, 0x9E3779B97F4A7C15ULL, __ATOMIC_RELAXED);
+      if ((r >> 33) % 2 == 0)
+        usleep ((r >> 40) % 300);
       errno = e;
     }
   return r;
@@ -229,7 +276,7 @@ ssize_t read (int fd, void *buf, size_t n)
               park (1);
             }
           r = syscall (SYS_read, fd, buf, n);
-          if (r != (ssize_t) n)
+          if (r <= 0)		/* the read that found the doorbell empty ends the drain loop of either back end */
             {
               int e = errno;
               park (2);
@@ -252,7 +299,7 @@ static void *cw_thread (void *arg)
   struct timeval tv = { 0, 0 };
   (void) arg;
   gated_thread = 1;
-  cw.n = async_runtime_wait (rt, cw.ev, cw.max, &tv);
+  cw.n = RT_wait (rt, cw.ev, cw.max, &tv);
   gated_thread = 0;
   __atomic_store_n (&cw.done, 1, __ATOMIC_RELEASE);
   sem_post (&cw.arrived);
@@ -289,8 +336,7 @@ static void cmd_wbegin (int max)
       emit ("skip wait-in-progress");
       return;
     }
-  the_rt ();
-  gate_fd = async_runtime_get_event_loop_handle (rt);
+  set_gate_fds ();
   sem_init (&cw.arrived, 0, 0);
   sem_init (&cw.go, 0, 0);
   cw.active = 1, cw.max = max, cw.gate = 0, cw.done = 0, cw.past1 = 0;
@@ -326,7 +372,7 @@ static void cmd_wait (int max)
       emit ("skip wait-in-progress");	/* async_runtime_wait must not be called by two threads */
       return;
     }
-  n = async_runtime_wait (the_rt (), ev, max, &tv);
+  n = RT_wait (the_rt (), ev, max, &tv);
   emit_wait (max, n, ev);
 }
 
@@ -382,6 +428,7 @@ static int thread_sleeping (int tid)
 }
 
 static volatile int bw_tid;
+static int clear_dead;
 
 static void *bw_thread (void *arg)
 {
@@ -491,6 +538,9 @@ static void cmd_qstat (void)
 /* ---- worker --------------------------------------------------------------------------------------------- */
 
 #define MAXW 16
+/* workers with an even number are created with an explicit stack size (the pthread_attr path of
+ * async_worker_create), the others with the default: both paths must show the same life cycle */
+#define WSTACK(w) (((w) % 2 == 0) ? (size_t) (512 * 1024) : (size_t) 0)
 typedef struct
 {
   int used;
@@ -615,7 +665,7 @@ static void cmd_wnew_race (int w)
   creating = s;
   race_tid = 0;
   race_create = 1;
-  s->w = async_worker_create (race_proc, s, 0);
+  s->w = async_worker_create (race_proc, s, WSTACK (w));
   race_create = 0;
   if (!s->w)
     {
@@ -649,7 +699,7 @@ static void cmd_wnew (int w, int hold)
   verif_async_yield = yield_cb;
 #endif
   creating = s;
-  s->w = async_worker_create (scripted_proc, s, 0);
+  s->w = async_worker_create (scripted_proc, s, WSTACK (w));
   if (!s->w)
     {
       emit ("wnew %d null", w);
@@ -975,8 +1025,8 @@ static void *post_producer (void *arg)
     {
       rnd_yield (&p->seed);
       if (rng_next (&p->seed) % 5 == 0)
-        async_runtime_wakeup (rt);
-      while (async_runtime_post_completion (rt, MT_KEY0 + p->id, (uintptr_t) i) != 0)
+        RT_wakeup (rt);
+      while (RT_post (rt, MT_KEY0 + p->id, (uintptr_t) i) != 0)
         {
           p->refused++;
           sched_yield ();
@@ -1009,8 +1059,7 @@ static void mt_post (int nprod, int nper, int maxev, uint64_t seed)
       emit ("mt post bad arguments");
       return;
     }
-  the_rt ();
-  gate_fd = async_runtime_get_event_loop_handle (rt);
+  set_gate_fds ();
   read_jitter = &cs;		/* widen the window around this thread's doorbell read */
   __atomic_store_n (&mt_posted, 0, __ATOMIC_RELEASE);
   __atomic_store_n (&mt_ack, 0, __ATOMIC_RELEASE);
@@ -1033,11 +1082,11 @@ static void mt_post (int nprod, int nper, int maxev, uint64_t seed)
       /* posts that had returned before this wait was called: the wait must not time out without delivering
        * them (lost wake-up) - a statement about the order of events, not about time */
       long before = __atomic_load_n (&mt_posted, __ATOMIC_ACQUIRE);
-      int n = async_runtime_wait (rt, ev, maxev, &tv);
+      int n = RT_wait (rt, ev, maxev, &tv);
       if (n <= 0 && before > got + dup + garbled)
         {
           slept_on++;
-          async_runtime_wakeup (rt);	/* ring for the erased wake-up so that the run can finish (verdict is already bad) */
+          RT_wakeup (rt);	/* ring for the erased wake-up so that the run can finish (verdict is already bad) */
         }
       if (n <= 0 && all_done && ++empty_after_done >= 3)
         break;
@@ -1093,7 +1142,7 @@ static void mt_post (int nprod, int nper, int maxev, uint64_t seed)
   for (int r = 0; r < 3; r++)
     {
       struct timeval tv = { 0, 0 };
-      int n = async_runtime_wait (rt, ev, maxev, &tv);
+      int n = RT_wait (rt, ev, maxev, &tv);
       extra += n > 0 ? n : 0;
     }
   read_jitter = 0;
@@ -1227,7 +1276,7 @@ static void mt_worker (int n, uint64_t seed)
 #endif
   for (int i = 0; i < n && i < 16 && !bad; i++)
     {
-      async_worker_t *w = async_worker_create (free_proc, (void *) (intptr_t) i, 0);
+      async_worker_t *w = async_worker_create (free_proc, (void *) (intptr_t) i, WSTACK (i));
       int rc, a, b;
       if (!w)
         {
@@ -1326,6 +1375,358 @@ static void mt_timer (int interval, int run, uint64_t seed)
     emit ("mt timer ok");
 }
 
+/* mt qclear <cap> <nprod> <nper> <seed>: several writers asleep on a full BLOCK_WRITER queue; the consumer makes room
+ * mostly by async_queue_clear.  After a clear issued while the queue is full and some producer still has messages, the
+ * enqueue counter must move (a writer was released): waited for as a condition.  Per-producer order of what is
+ * dequeued must be increasing (cleared messages are skipped, nothing is duplicated or reordered). */
+static void mt_qclear (int cap, int nprod, int nper, uint64_t seed)
+{
+  pthread_t th[16];
+  qprod_t pr[16];
+  int next[16] = { 0 };
+  long dup = 0, garbled = 0, clears = 0;
+  const char *why = 0;
+  async_queue_stats_t st;
+  uint64_t cs = seed ^ 0xC1EA;
+  if (q || nprod < 1 || nprod > 16 || cap < 1)
+    {
+      emit ("mt qclear bad arguments");
+      return;
+    }
+  q = async_queue_create (cap, sizeof (qmsg_t), ASYNC_QUEUE_BLOCK_WRITER);
+  for (int i = 0; i < nprod; i++)
+    {
+      pr[i].id = i, pr[i].nper = nper, pr[i].seed = seed * 977 + i, pr[i].retry = 1, pr[i].done = 0;
+      pthread_create (&th[i], 0, queue_producer, &pr[i]);
+    }
+  for (;;)
+    {
+      int all_done = 1;
+      long end = now_ms () + MT_LIVE_MS;
+      uint64_t e0;
+      for (int i = 0; i < nprod; i++)
+        if (!__atomic_load_n (&pr[i].done, __ATOMIC_ACQUIRE))
+          all_done = 0;
+      if (all_done)
+        break;
+      /* give the producers a moment to fill the queue and fall asleep (NOT a verdict and not needed by the oracle: after
+       * a clear the queue is EMPTY, so an unfinished producer either runs and enqueues, or sleeps and must have been
+       * released by the clear - the enqueue counter moves in both cases).  A queue that is merely not full can keep
+       * sleepers waiting (auto-reset event: one release per dequeue), so "full" may never come back: bounded. */
+      end = now_ms () + 30;
+      while (!async_queue_is_full (q) && now_ms () < end)
+        {
+          all_done = 1;
+          for (int i = 0; i < nprod; i++)
+            if (!__atomic_load_n (&pr[i].done, __ATOMIC_ACQUIRE))
+              all_done = 0;
+          if (all_done)
+            break;
+          usleep (200);
+        }
+      if (all_done)
+        break;
+      if (rng_next (&cs) % 4 == 0)
+        usleep (rng_next (&cs) % 2000);	/* let more writers fall asleep on not_full */
+      if (rng_next (&cs) % 3 == 0)
+        {
+          /* a few ordinary dequeues */
+          for (int k = (int) (rng_next (&cs) % 3) + 1; k > 0; k--)
+            {
+              qmsg_t m;
+              size_t sz = 0;
+              if (async_queue_dequeue (q, &m, sizeof m, &sz))
+                {
+                  if (sz != sizeof m || m.p >= (uint32_t) nprod || m.v >= (uint32_t) nper)
+                    garbled++;
+                  else if ((int) m.v < next[m.p])
+                    dup++;
+                  else
+                    next[m.p] = (int) m.v + 1;
+                }
+            }
+          continue;
+        }
+      async_queue_get_stats (q, &st);
+      e0 = st.enqueue_count;
+      async_queue_clear (q);
+      clears++;
+      /* the queue was full, so every unfinished producer is inside enqueue (asleep or about to be): one of them must
+       * get its message in now */
+      end = now_ms () + CLEAR_LIVE_MS;
+      for (;;)
+        {
+          async_queue_get_stats (q, &st);
+          if (st.enqueue_count > e0)
+            break;
+          all_done = 1;
+          for (int i = 0; i < nprod; i++)
+            if (!__atomic_load_n (&pr[i].done, __ATOMIC_ACQUIRE))
+              all_done = 0;
+          if (all_done)
+            break;
+          if (now_ms () > end)
+            {
+              why = "writers-left-asleep-after-clear";
+              break;
+            }
+          usleep (200);
+        }
+      if (why)
+        break;
+    }
+  if (!why)
+    for (int i = 0; i < nprod; i++)
+      pthread_join (th[i], 0);
+  if (why)
+    emit ("mt qclear bad %s clears=%ld", why, clears);
+  else if (dup || garbled || q->head >= q->capacity || q->tail >= q->capacity)
+    emit ("mt qclear bad duplicated=%ld garbled=%ld", dup, garbled);
+  else
+    emit ("mt qclear ok");
+}
+
+/* mt console <nlines> <mode> <seed>: the REAL console worker (lib/async/console_worker.c) reading a pipe installed as
+ * stdin, the line queue and completion key exactly as src/comm.c sets them up (capacity 256, DROP_OLDEST).
+ *   mode 0  feed all lines, consume everything, then shutdown
+ *   mode 1  shutdown while the feeder is still writing
+ *   mode 2  shutdown immediately after init (the thread may not have run yet)
+ *   mode 3  close the pipe (EOF): the worker ends by itself, shutdown afterwards
+ * Oracle: the concatenation of the dequeued chunks is a prefix of the bytes written (all of them in modes 0 and 3, no
+ * message is dropped because the consumer keeps up); one completion with the console key per chunk, its data = chunk
+ * length, never before the chunk is in the queue; shutdown(5000) comes back true within its sleep bound; afterwards
+ * state STOPPED and no further completion or message appears. */
+typedef struct
+{
+  int fd, nlines;
+  uint64_t seed;
+  volatile int stop, written;
+  volatile long sent, consumed;	/* bytes written by the feeder / bytes the consumer has dequeued */
+} feeder_t;
+
+/* flow control: the feeder never runs more than this many bytes (about 100 lines, far below the 256 slots of the
+ * line queue) ahead of the consumer - on a correct implementation DROP_OLDEST can then never drop, however the
+ * threads are scheduled (no verdict depends on the consumer keeping up in time) */
+#define FEED_WINDOW 3000
+
+static void console_line (char *buf, size_t cap, int i)
+{
+  snprintf (buf, cap, "line-%05d-%.*s\n", i, i % 23, "abcdefghijklmnopqrstuvwxyz");
+}
+
+static void *feeder_thread (void *arg)
+{
+  feeder_t *f = (feeder_t *) arg;
+  char line[128];
+  for (int i = 0; i < f->nlines && !__atomic_load_n (&f->stop, __ATOMIC_ACQUIRE); i++)
+    {
+      console_line (line, sizeof line, i);
+      while (__atomic_load_n (&f->sent, __ATOMIC_ACQUIRE) - __atomic_load_n (&f->consumed, __ATOMIC_ACQUIRE) > FEED_WINDOW
+             && !__atomic_load_n (&f->stop, __ATOMIC_ACQUIRE))
+        usleep (200);
+      {
+        /* the write end is non-blocking: a full pipe (nobody reads after a shutdown) must not hang the feeder */
+        size_t off = 0, len = strlen (line);
+        while (off < len && !__atomic_load_n (&f->stop, __ATOMIC_ACQUIRE))
+          {
+            long w = syscall (SYS_write, f->fd, line + off, len - off);
+            if (w > 0)
+              off += (size_t) w;
+            else if (w < 0 && errno != EAGAIN && errno != EINTR)
+              return 0;
+            else
+              usleep (200);
+          }
+        if (off < len)
+          return 0;
+      }
+      __atomic_fetch_add (&f->sent, (long) strlen (line), __ATOMIC_ACQ_REL);
+      __atomic_store_n (&f->written, i + 1, __ATOMIC_RELEASE);
+      if (rng_next (&f->seed) % 3 == 0)
+        usleep (rng_next (&f->seed) % 300);
+    }
+  return 0;
+}
+
+static void mt_console (int nlines, int mode, uint64_t seed)
+{
+  int pfd[2], saved_stdin, sleeps = 0, rc;
+  pthread_t fth;
+  feeder_t fd_;
+  console_worker_context_t *cw_;
+  async_queue_t *lq;
+  char *expect, *got;
+  size_t elen = 0, glen = 0, gcap;
+  long completions = 0, chunks = 0, bad_key = 0, early = 0, end;
+  const char *why = 0;
+  io_event_t ev[16];
+  char line[128];
+  if (nlines < 1 || nlines > 5000 || pipe (pfd) < 0)
+    {
+      emit ("mt console bad arguments");
+      return;
+    }
+  expect = (char *) calloc (1, (size_t) nlines * 64 + 64);
+  gcap = (size_t) nlines * 64 + 4096 + 64;
+  got = (char *) calloc (1, gcap);
+  for (int i = 0; i < nlines; i++)
+    {
+      console_line (line, sizeof line, i);
+      memcpy (expect + elen, line, strlen (line));
+      elen += strlen (line);
+    }
+  fcntl (pfd[1], F_SETFL, fcntl (pfd[1], F_GETFL, 0) | O_NONBLOCK);
+  saved_stdin = dup (0);
+  dup2 (pfd[0], 0);
+  close (pfd[0]);
+  the_rt ();
+  lq = async_queue_create (256, CONSOLE_MAX_LINE, ASYNC_QUEUE_DROP_OLDEST);
+  fd_.fd = pfd[1], fd_.nlines = nlines, fd_.seed = seed * 31 + 7, fd_.stop = 0, fd_.written = 0;
+  fd_.sent = 0, fd_.consumed = 0;
+  /* console_worker.c posts through the EPOLL back end (it is linked against libasync), so this run always uses it */
+  set_gate_fds ();
+  __atomic_store_n (&console_jitter, seed | 1, __ATOMIC_RELEASE);
+  cw_ = use_poll ? 0 : console_worker_init (rt, lq, CONSOLE_COMPLETION_KEY);
+  if (!cw_ || !cw_->worker)
+    {
+      emit ("mt console bad init-failed");
+      goto out;
+    }
+  if (mode != 2)
+    pthread_create (&fth, 0, feeder_thread, &fd_);
+  end = now_ms () + MT_LIVE_MS;
+  while (mode == 0 || mode == 3 || (mode == 1 && __atomic_load_n (&fd_.written, __ATOMIC_ACQUIRE) < nlines / 2 + 1))
+    {
+      struct timeval tv = { 0, 20000 };
+      int n = async_runtime_wait (rt, ev, 16, &tv);
+      for (int i = 0; i < n; i++)
+        {
+          char chunk[CONSOLE_MAX_LINE];
+          size_t sz = 0;
+          if (ev[i].completion_key != CONSOLE_COMPLETION_KEY)
+            {
+              bad_key++;
+              continue;
+            }
+          completions++;
+          /* the chunk was enqueued BEFORE the completion was posted: it must be there */
+          if (!async_queue_dequeue (lq, chunk, sizeof chunk, &sz))
+            {
+              early++;
+              why = "completion-posted-before-its-chunk-was-enqueued";
+            }
+          else
+            {
+              chunks++;
+              if (sz == 0 || chunk[sz - 1] != 0 || sz - 1 != (size_t) ev[i].bytes_transferred)
+                why = "chunk-length-differs-from-completion-data";
+              if (glen + sz < gcap)
+                memcpy (got + glen, chunk, sz - 1), glen += sz - 1;
+              __atomic_store_n (&fd_.consumed, (long) glen, __ATOMIC_RELEASE);
+            }
+        }
+      if (glen >= elen || why)
+        break;
+      if (now_ms () > end)
+        {
+          why = "lines-not-delivered";
+          break;
+        }
+    }
+  if (mode == 3)
+    {
+      /* EOF: the worker leaves its loop by itself; its state must become STOPPED (condition, liveness bound) */
+      pthread_join (fth, 0);
+      close (pfd[1]);
+      pfd[1] = -1;
+      end = now_ms () + MT_LIVE_MS;
+      while (async_worker_get_state (cw_->worker) != ASYNC_WORKER_STOPPED && now_ms () < end)
+        usleep (500);
+      if (async_worker_get_state (cw_->worker) != ASYNC_WORKER_STOPPED)
+        why = "worker-alive-after-eof";
+    }
+  /* shutdown = signal_stop + timed join; sleeps of the join are counted (interposed nanosleep), not timed */
+  {
+    int t = 5000, worst = 0;
+    /* the worker looks at the stop event at least every 10 ms of ITS time; on a slow machine one timed join may
+     * expire before the thread was scheduled: every shutdown must come back within its sleep bound, one of them
+     * (liveness bound: 6 x 5 s) with true */
+    rc = 0;
+    for (int tries = 0; tries < 6 && !rc; tries++)
+      {
+        sleeps = 0;
+        sleep_counter = &sleeps;
+        rc = console_worker_shutdown (cw_, t) ? 1 : 0;
+        sleep_counter = 0;
+        if (sleeps > worst)
+          worst = sleeps;
+      }
+    if (!rc)
+      why = "shutdown-timed-out";
+    else if (worst > (t + POLL_MS - 1) / POLL_MS)
+      why = "shutdown-too-many-sleeps";
+    else if (async_worker_get_state (cw_->worker) != ASYNC_WORKER_STOPPED)
+      why = "state-not-stopped-after-shutdown";
+  }
+  __atomic_store_n (&fd_.stop, 1, __ATOMIC_RELEASE);
+  if (mode == 0 || mode == 1)
+    pthread_join (fth, 0);
+  /* the feeder may have written more: none of it may be consumed by the (finished) worker */
+  {
+    async_queue_stats_t s0, s1;
+    struct timeval tv = { 0, 0 };
+    char chunk[CONSOLE_MAX_LINE];
+    size_t sz;
+    int n;
+    async_queue_get_stats (lq, &s0);
+    if (pfd[1] >= 0)
+      {
+        console_line (line, sizeof line, 99999);
+        syscall (SYS_write, pfd[1], line, strlen (line));
+      }
+    usleep (30000);		/* three select periods of the worker, were it still alive */
+    async_queue_get_stats (lq, &s1);
+    if (rc && s1.enqueue_count != s0.enqueue_count)
+      why = "worker-ran-after-shutdown";
+    /* drain what was posted before the stop: still chunk-for-completion, still a prefix of the input */
+    while ((n = async_runtime_wait (rt, ev, 16, &tv)) > 0)
+      for (int i = 0; i < n; i++)
+        if (ev[i].completion_key == CONSOLE_COMPLETION_KEY)
+          completions++;
+        else
+          bad_key++;
+    while (async_queue_dequeue (lq, chunk, sizeof chunk, &sz))
+      {
+        chunks++;
+        if (sz > 0 && glen + sz < gcap)
+          memcpy (got + glen, chunk, sz - 1), glen += sz - 1;
+      }
+    if (s1.dropped_count)
+      why = why ? why : "line-dropped-although-consumer-kept-up";
+  }
+  if (!why && (glen > elen || memcmp (got, expect, glen)))
+    why = "bytes-garbled-or-reordered";
+  if (!why && (mode == 0 || mode == 3) && glen != elen)
+    why = "bytes-lost";
+  if (!why && (bad_key || early || completions != chunks))
+    why = "completions-do-not-match-chunks";
+  if (why)
+    emit ("mt console bad %s completions=%ld chunks=%ld early=%ld bytes=%lu/%lu", why, completions, chunks, early,
+          (unsigned long) glen, (unsigned long) elen);
+  else
+    emit ("mt console ok");
+  console_worker_destroy (cw_);
+out:
+  __atomic_store_n (&console_jitter, (uint64_t) 0, __ATOMIC_RELEASE);
+  dup2 (saved_stdin, 0);
+  close (saved_stdin);
+  if (pfd[1] >= 0)
+    close (pfd[1]);
+  async_queue_destroy (lq);
+  free (expect);
+  free (got);
+}
+
 /* ---- case loop ------------------------------------------------------------------------------------------ */
 
 static int split (char *line, char **tok, int max)
@@ -1354,16 +1755,24 @@ static void run_line (char *line)
   int n;
   snprintf (copy, sizeof copy, "%s", line);
   n = split (copy, tok, 16);
+  if (n == 1 && !strcmp (tok[0], "#poll") && !rt)
+    {
+      if (pollrt_compiled ())
+        use_poll = 1;
+      else
+        emit ("crash poll-back-end-not-compiled");
+      return;
+    }
   if (n == 0 || tok[0][0] == '#')
     return;
   if (!strcmp (tok[0], "post") && n == 4)
     {
       unsigned long k = strtoul (tok[2], 0, 10), d = strtoul (tok[3], 0, 10);
-      int rc = async_runtime_post_completion (the_rt (), k, d);
+      int rc = RT_post (the_rt (), k, d);
       emit ("post %s %lu %lu %d", tok[1], k, d, rc);
     }
   else if (!strcmp (tok[0], "wakeup") && n == 1)
-    emit ("wakeup %d", async_runtime_wakeup (the_rt ()));
+    emit ("wakeup %d", RT_wakeup (the_rt ()));
   else if (!strcmp (tok[0], "wait") && n == 2)
     cmd_wait (atoi (tok[1]));
   else if (!strcmp (tok[0], "wbegin") && n == 2)
@@ -1393,12 +1802,23 @@ static void run_line (char *line)
     {
       if (!q)
         emit ("skip no-queue");
-      else if (bw.pending)
-        emit ("skip writer-blocked");
       else
         {
           async_queue_clear (q);
           emit ("qclear");
+          /* the queue is empty now: a writer asleep on not_full must be released by the clear itself (waited for as a
+           * CONDITION; the bound is liveness only and is reached only when the writer was left asleep) */
+          if (bw.pending && !clear_dead && !wait_flag (&bw.done, CLEAR_LIVE_MS))
+            clear_dead = 1;	/* left asleep: do not wait again in this case (the oracle flags the missing `unblocked`) */
+          if (bw.pending && __atomic_load_n (&bw.done, __ATOMIC_ACQUIRE))
+            {
+              pthread_join (bw.th, 0);
+              bw.pending = 0;
+              if (bw.rc)
+                emit ("unblocked %u %u", bw.p, bw.v);
+              else
+                emit ("enq %u %u %u fail", bw.p, bw.v, bw.size);
+            }
         }
     }
   else if (tok[0][0] == 'w' && worker_cmd (tok, n))
@@ -1418,6 +1838,10 @@ static void run_line (char *line)
         mt_worker (a[0], a[1]);
       else if (!strcmp (tok[1], "timer") && n == 5)
         mt_timer (a[0], a[1], a[2]);
+      else if (!strcmp (tok[1], "qclear") && n == 6)
+        mt_qclear (a[0], a[1], a[2], a[3]);
+      else if (!strcmp (tok[1], "console") && n == 5)
+        mt_console (a[0], a[1], a[2]);
       else
         emit ("mt %s bad arguments", tok[1]);
     }
